@@ -412,7 +412,7 @@ def outside_cases(lay):
 def explore(rep, br, tier, seed):
     rng = random.Random(seed)
     enc = bk_enc()
-    n_random = 2000 if tier == "quick" else 60000
+    n_random = 1500 if tier == "quick" else 60000
     cases = build_cases(rng, tier, enc, n_random)
     recs = run_cases(rng, cases)
     fixed_lay = {"base": 0o1000, "link": None, "pad": 2, "consts": {"cb0": 0o21, "cb1": -5, "ca0": 0o377, "ca1": 1 << 31}}
